@@ -7,6 +7,7 @@
 // profiles: C01 (values), C02 (derivatives), C04 (lookup), C05 (arbitrary doubles, every entry point),
 //           C03 (all evaluation paths, compared bitwise inside this process)
 #include "common.h"
+#include <unistd.h>
 using namespace psv;
 
 static FILE *fc, *fi;
@@ -121,6 +122,7 @@ int main(int argc, char** argv) {
   stats["paths_points"] = 0;
   long path_mismatch = 0;
   for (long it = 0; it < ntables; it++) {
+    alarm(60);  // watchdog: a lookup or evaluation that does not terminate kills the harness (SIGALRM) with the last input flushed
     Gen g; gen_table(r, g, maxcoef, profile);
     // padding: regenerate deterministic pads here so build_table and the driver agree
     std::vector<double> pads; { int ps = r.range(0, 3); for (int i = 0; i < 61; i++) pads.push_back(ps == 0 ? std::numeric_limits<double>::quiet_NaN() : ps == 1 ? r.unit() * 200 - 100 : ps == 2 ? (r.coin() ? INFINITY : -INFINITY) : 0.0); }
@@ -132,9 +134,9 @@ int main(int argc, char** argv) {
       std::vector<double> x(nd); std::vector<int> c(nd, -12345);
       std::string kinds;
       for (uint32_t d = 0; d < nd; d++) { std::string k; x[d] = pick_x(r, g.kn[d], g.ord[d], wild, k); stats["x_" + k]++; }
-      bool ok = t.searchcenters(x.data(), c.data());
-      // S line
+      // S line first (flushed), so that a hang or crash inside the lookup leaves the offending input as the last line
       fprintf(fc, "S"); for (uint32_t d = 0; d < nd; d++) fprintf(fc, " %llu", (unsigned long long)bits(x[d])); fprintf(fc, "\n"); fflush(fc);
+      bool ok = t.searchcenters(x.data(), c.data());
       if (ok) { fprintf(fi, "ok"); for (uint32_t d = 0; d < nd; d++) fprintf(fi, " %d", c[d]); fprintf(fi, "\n"); } else fprintf(fi, "reject\n");
       stats[ok ? "lookup_ok" : "lookup_reject"]++;
       { // the C wrapper and the evaluator object must agree with the member function
